@@ -238,13 +238,21 @@ def run_check(prop, tier='quick', seed=0, jobs=None, only=None, write_baseline=F
     budget = dict(BUDGETS[tier])
     tasks = []
     selected = []
+    also = set()
+    try:
+        also = set(getattr(importlib.import_module(f'props.{prop}'), 'ALSO_PROPS', []))
+    except ModuleNotFoundError:
+        pass
+    wanted = {prop} | also
     for q, c in C.REGISTRY.items():
-        if prop not in c.props and not any(sh.props and prop in sh.props for sh in c.shapes):
+        if not (wanted & c.props) and not any(sh.props and (wanted & sh.props) for sh in c.shapes):
             continue
         if only and only not in q:
             continue
+        if also and prop not in c.props and c.kind != 'public':
+            continue
         for i, sh in enumerate(c.shapes):
-            if prop not in (sh.props if sh.props is not None else c.props):
+            if not (wanted & (sh.props if sh.props is not None else c.props)):
                 continue
             tasks.append(('shape', (q, i, tier, seed, budget)))
             selected.append((q, i))
